@@ -3,6 +3,7 @@ C13 — property theorems. `decode*` are the reference decoders of Spec.lean (wr
 definitions), `encode*` the model of the Go transforms (Model.lean), `norm*` the explicitly stated lossy points.
 -/
 import Otel.C13.Lemmas
+import Otel.C13.LemmasF64
 namespace Otel.C13
 
 /-! ## typed attribute values (clause "typed attribute values … all attribute value types and nesting") -/
@@ -96,6 +97,23 @@ theorem spans_encode_grouping (sdl : List (Option Span)) :
   intro sg hsg s hs
   exact (groupBy_ok (fun s : Span => s.scope) (fun _ => ()) _ sg hsg).1 s hs
 
+/-- **spans: the payload determines every named field (partial: F16, F32 excluded).** Two batches that are
+encoded to the same payload have the same normalised spans — group by group in the same order, hence the same
+multiset of normalised input spans: no field kept by `normSpan` (ids, parent span id and remote bit, name,
+kind, timestamps, attributes, events, links, status, dropped counts, resource, scope) can change without the
+payload changing. Corollary of `spans_decode_encode_partial`. -/
+theorem spans_encode_injective_partial (a b : List (Option Span))
+    (ha : F16_applies a = false ∧ F32_applies a = false) (hb : F16_applies b = false ∧ F32_applies b = false)
+    (h : encodeSpans a = encodeSpans b) :
+    (groupedSpans a).map normSpan = (groupedSpans b).map normSpan ∧
+    ((a.filterMap id).map normSpan).Perm ((b.filterMap id).map normSpan) := by
+  have h1 := spans_decode_encode_partial a ha.1 ha.2
+  rw [h, spans_decode_encode_partial b hb.1 hb.2] at h1
+  have heq := (Option.some.inj h1).symm
+  refine ⟨heq, ?_⟩
+  exact (((groupedSpans_perm a).map normSpan).symm.trans (heq ▸ List.Perm.refl _)).trans
+    ((groupedSpans_perm b).map normSpan)
+
 /-- the full statement (false on the current code: F16, F32) -/
 def spans_decode_encode_full_statement : Prop :=
   ∀ sdl : List (Option Span), decodeSpans (encodeSpans sdl) = some ((groupedSpans sdl).map normSpan)
@@ -145,6 +163,22 @@ theorem logs_decode_encode_partial (rs : List LogRecord) (hR : F32_appliesLogs r
   have := hE r hmem
   simp only [Bool.or_eq_true, Bool.not_eq_true', not_or, Bool.not_eq_false] at this
   exact normLog_eq_normLogS r this.1 this.2
+
+/-- **logs: the payload determines every named field (partial: F32, F33 excluded).** Two batches of records
+without empty values that are encoded to the same payload have the same records up to `normLogS` (body and
+nested attribute values unchanged) — group by group, hence as multisets. Corollary of
+`logs_decode_encode_partial`. -/
+theorem logs_encode_injective_partial (a b : List LogRecord)
+    (ha : F32_appliesLogs a = false ∧ F33_applies a = false ∧ ∀ r ∈ a, r.flags < 256)
+    (hb : F32_appliesLogs b = false ∧ F33_applies b = false ∧ ∀ r ∈ b, r.flags < 256)
+    (h : encodeLogs a = encodeLogs b) :
+    (groupedLogs a).map normLogS = (groupedLogs b).map normLogS ∧ (a.map normLogS).Perm (b.map normLogS) := by
+  have h1 := logs_decode_encode_partial a ha.1 ha.2.1 ha.2.2
+  rw [h, logs_decode_encode_partial b hb.1 hb.2.1 hb.2.2] at h1
+  have heq := (Option.some.inj h1).symm
+  refine ⟨heq, ?_⟩
+  exact (((groupedLogs_perm a).map normLogS).symm.trans (heq ▸ List.Perm.refl _)).trans
+    ((groupedLogs_perm b).map normLogS)
 
 /-- the full statement (false on the current code: F32, F33) -/
 def logs_decode_encode_full_statement : Prop :=
@@ -207,6 +241,18 @@ theorem metrics_all_kept (sm : ScopeMetrics) (h : ∀ m ∈ sm.metrics, m.valid 
     (normScopeMetrics sm).metrics = sm.metrics.map normMetric := by
   simp only [normScopeMetrics]
   rw [List.filter_eq_self.mpr h]
+
+/-- **metrics: the payload determines every named field (partial: F17 excluded).** Two `ResourceMetrics` that
+are encoded to the same payload are equal up to `normResourceMetrics`: same resource, scopes, valid metrics, data
+points, temporality, monotonicity, bucket layouts, quantiles, exemplars and values. Corollary of
+`metrics_decode_encode_partial`. -/
+theorem metrics_encode_injective_partial (a b : ResourceMetrics)
+    (ha : F17_applies a = false) (hb : F17_applies b = false)
+    (h : encodeResourceMetrics a = encodeResourceMetrics b) :
+    normResourceMetrics a = normResourceMetrics b := by
+  have h1 := metrics_decode_encode_partial a ha
+  rw [h, metrics_decode_encode_partial b hb] at h1
+  exact (Option.some.inj h1).symm
 
 /-- the full statement (false on the current code: F17) -/
 def metrics_decode_encode_full_statement : Prop :=
@@ -332,11 +378,37 @@ theorem logDropped_exact (v : Int) (h : 0 ≤ v ∧ v ≤ 4294967295) : Int.ofNa
 /-- float64 measurements are carried bit for bit -/
 theorem numToF64_float (f : F64) : normNumF (.float f) = .float f := rfl
 
-/-- int64 histogram sums up to 2⁵³ in magnitude are converted exactly (injectively) — stated, not proved
-(needs bit-length reasoning about `natToF64`); the driver compares `intToF64` with Go's conversion on every run -/
-def intToF64_injective_in_range_statement : Prop :=
-  ∀ v w : Int, -9007199254740992 ≤ v → v ≤ 9007199254740992 → -9007199254740992 ≤ w → w ≤ 9007199254740992 →
-    intToF64 v = intToF64 w → v = w
+/-- **int64 → float64 is exact up to 2⁵³.** For every `v` with |v| ≤ 2⁵³ the bit pattern produced by the
+conversion model `intToF64` (Go's `float64(v)`: round to nearest even), read back by the IEEE-754 reference
+reader `f64ToInt` of Spec.lean (sign, biased exponent, fraction with hidden bit → exact dyadic value), is `v`
+itself: int64 histogram sum/min/max in that range lose nothing by travelling as doubles. -/
+theorem intToF64_exact_in_range (v : Int) (h1 : -9007199254740992 ≤ v) (h2 : v ≤ 9007199254740992) :
+    f64ToInt (intToF64 v) = some v := intToF64_exact v h1 h2
+
+/-- **int64 → float64 is injective up to 2⁵³** (corollary of exactness) -/
+theorem intToF64_injective_in_range :
+    ∀ v w : Int, -9007199254740992 ≤ v → v ≤ 9007199254740992 → -9007199254740992 ≤ w → w ≤ 9007199254740992 →
+      intToF64 v = intToF64 w → v = w := by
+  intro v w hv1 hv2 hw1 hw2 h
+  have := intToF64_exact v hv1 hv2
+  rw [h, intToF64_exact w hw1 hw2] at this
+  exact (Option.some.inj this).symm
+
+/-- the same for the stated lossy point `normNumF` of histogram sum/min/max: two int64 values in range that
+arrive as the same double are equal -/
+theorem normNumF_int_injective_in_range (v w : Int)
+    (hv : -9007199254740992 ≤ v ∧ v ≤ 9007199254740992) (hw : -9007199254740992 ≤ w ∧ w ≤ 9007199254740992)
+    (h : normNumF (.int v) = normNumF (.int w)) : v = w := by
+  simp only [normNumF, numToF64, Num.float.injEq] at h
+  exact intToF64_injective_in_range v w hv.1 hv.2 hw.1 hw.2 h
+
+/-- the bound 2⁵³ is tight: 2⁵³+1 is rounded (to even) onto 2⁵³ -/
+theorem intToF64_not_injective_beyond_witness :
+    intToF64 9007199254740993 = intToF64 9007199254740992 ∧ f64ToInt (intToF64 9007199254740993) = some 9007199254740992 := by
+  decide
+
+example : intToF64 (-9007199254740992) = 0xc340000000000000 ∧ intToF64 3 = 0x4008000000000000 ∧
+    f64ToInt (intToF64 (-9007199254740991)) = some (-9007199254740991) := by decide
 
 /-! ## Zipkin ids -/
 
@@ -429,6 +501,14 @@ def exBatch : List (Option Span) :=
 example : F16_applies exBatch = false ∧ F32_applies exBatch = false ∧
     (encodeSpans exBatch).length = 3 ∧ (groupedSpans exBatch).map (·.name) = [[1], [5], [3], [2], [4]] ∧
     decodeSpans (encodeSpans exBatch) = some ((groupedSpans exBatch).map normSpan) := by decide
+
+/-- the hypotheses of `spans_encode_injective_partial` are met by two different batches with the same payload
+(nil entries are skipped), and a batch that differs in one named field has another payload -/
+example : F16_applies (exBatch.filter Option.isSome) = false ∧ F32_applies (exBatch.filter Option.isSome) = false ∧
+    exBatch.length ≠ (exBatch.filter Option.isSome).length ∧
+    (encodeSpans exBatch == encodeSpans (exBatch.filter Option.isSome)) = true ∧
+    (encodeSpans [some (exSpan none exScope 1)] == encodeSpans [some { exSpan none exScope 1 with kind := 2 }]) = false := by
+  decide
 
 def exLog (r : Resource) (sc : Scope) (n : UInt8) : LogRecord :=
   { eventName := [n], time := 5, observed := -1, severity := 9, severityText := [73],
